@@ -284,6 +284,36 @@ func qualifiedName(x ast.Expr) string {
 	}
 }
 
+// resolvedQualifiedName is like qualifiedName, but it consults the type
+// information instead of trusting the spelling: "f" is returned only if f
+// denotes a Go builtin function and "path.f" only if the selector operand
+// denotes an imported package, which is then named by its import path
+// (so filepath.Join yields "path/filepath.Join").
+//
+// For user-defined functions, methods, variables and packages that merely
+// share the spelling it returns empty string.
+func resolvedQualifiedName(ctx *linter.CheckerContext, x ast.Expr) string {
+	switch x := x.(type) {
+	case *ast.SelectorExpr:
+		pkg, ok := x.X.(*ast.Ident)
+		if !ok {
+			return ""
+		}
+		pkgName, ok := ctx.TypesInfo.ObjectOf(pkg).(*types.PkgName)
+		if !ok {
+			return ""
+		}
+		return pkgName.Imported().Path() + "." + x.Sel.Name
+	case *ast.Ident:
+		if _, ok := ctx.TypesInfo.ObjectOf(x).(*types.Builtin); !ok {
+			return ""
+		}
+		return x.Name
+	default:
+		return ""
+	}
+}
+
 // identOf returns identifier for x that can be used to obtain associated types.Object.
 // Returns nil for expressions that yield temporary results, like `f().field`.
 func identOf(x ast.Node) *ast.Ident {
